@@ -990,9 +990,10 @@ STATEMENTS: dict[str, str] = {
 	'sound_lambda_param': 'applied to values of the types its parameters were given, the lambda body runs in an environment conforming to the one it is typed in: the inferred body type denotes the returned value, and the lambda is typed Callable<parameter types..., body type> (on_lambda)',
 	'sound_lambda_immediate': '(lambda x...: body)(args...) without any assumption on a callee: parameters typed by the inferred argument types, argument values conform to them, the body type denotes the value of the call',
 	'user_operator_left_decides': 'one step of each_binary_operator on the model: once the LEFT operand\'s try_operation answers, that is the type — whatever the right operand\'s class declares for the operator (the swapped attempt is a fallback only)',
-	'user_operator_partial': 'x op y with x an instance of a user class whose operator method (found through the chain) takes the class P, y an instance of P or of a class with P among its DIRECT bases: typed by the declared result of type(x).<dunder>, the method CPython calls (tryOpUser = try_operation incl. the inherits loop, traits.py:178-225)',
+	'user_operator_partial': 'x op y with x an instance of a user class whose operator method (found through the chain) takes the class P, y an instance of P or of a class with P among the classes try_operation compares (operandCandidates: the DIRECT bases as the source reads today): typed by the declared result of type(x).<dunder>, the method CPython calls (tryOpUser = try_operation incl. the inherits loop, traits.py:178-225)',
 	'sound_user_operator': 'the same at the level of VALUES: whatever CPython\'s call type(x).<dunder>(x, y) returns (World.call under WorldConf: a method returns a value of its declared type, also when a subclass override runs) is denoted by the type one step of each_binary_operator infers',
-	'user_operator_counterexample': 'known finding operator-operand-indirect-subclass: the full sentence (y of ANY descendant of P: user_operator_statement) is false on the code — nu + b2 with Big2(Big(Num)) is typed Big, CPython: Num (corpus witness 44)',
+	'user_operator_counterexample': 'known finding operator-operand-indirect-subclass: while try_operation compares the operand\'s DIRECT bases only (InferShape.operandBasesDirect, read from the source on every run; operandCandidates of the model follows it) the full sentence (y of ANY descendant of P: user_operator_statement) is false on the code — nu + b2 with Big2(Big(Num)) is typed Big, CPython: Num (corpus witness 44)',
+	'user_operator_full_when_repaired': 'once the source compares ALL ancestors of the operand (proposed/C03-operator-operand-indirect-subclass.diff; the translator then reads operandBasesDirect = false) the model of the code satisfies the full sentence user_operator_statement',
 	'user_operator_step / user_chain_type': 'a flat chain x op1 y op2 z … over instances of user classes, every step within the decidable form (directOk) of the hypotheses above: each_binary_operator (left to right, the previous RESULT as receiver) answers the type CPython\'s left-nested evaluation dispatches to (induction on the chain)',
 	'user_operator_repaired': 'on the model of try_operation with proposed/C03-operator-operand-indirect-subclass.diff applied (all ancestors of the operand compared) the FULL sentence user_operator_statement holds: an operand of any descendant class is typed by the left operand\'s method',
 	'shape_operators': 'BOp.arith / BOp.selects of the model are exactly the literal operator lists of Operations.arthmetical (accessible.py) and of try_operation (traits.py), read from the source by translate/gen_infer_shape.py on every run, for every operator token; the translator pins the statement sequence of try_operation and each_binary_operator (another shape = broken tie)',
